@@ -10,6 +10,7 @@
 From Coq Require Import List NArith Bool Permutation.
 Require Import Base Tables_rules.
 Require Import LintGroupCfg LintGroupCfgProofs LintGroupCfgJson C11History.
+Require Import C11Curated C11CuratedProofs.
 Import ListNotations.
 
 (* ---- the dispatch ---- *)
@@ -355,6 +356,51 @@ Proof. exact table_ok_true. Qed.
 Check C11_curated_table_ok : table_ok = true.
 Print Assumptions C11_curated_table_ok.
 
+(* LintGroup::new_curated as the statements it executes.  Tables_rules.v carries the statement sequences of
+   new_curated and of the three lint_group() functions it merges (transliterated from the sources, macros
+   expanded); Model/C11Curated.v executes them with g_add / g_add_pattern / g_merge_from / g_set_all_rules_to /
+   set_rule_enabled (new_curated_model; program_cfg = its configuration, program_names = its iter_keys()).
+   (1) the execution yields exactly the rule tables and the configuration all theorems above are stated over
+   (so the translator's own simulation is a checked witness, no longer trusted); (2) every registered rule has
+   exactly one curated default, an explicit one; (3) the keys of new_curated's configuration are exactly the
+   registered names; (4) fill_with_curated assigns exactly those: a registered name gets the user's explicit choice
+   else its default, any other key only what the user said explicitly; (5) the proper-noun sub-group, which the
+   code fills in HashMap iteration order, merges to the same group in EVERY order (adds = add_pattern_linter) *)
+Theorem C11_new_curated_program :
+  (program_cfg = curated_cfg /\
+   map fst (g_linters new_curated_model) = map fst curated_struct_rules /\
+   map fst (g_patterns new_curated_model) = map fst curated_pattern_rules /\
+   program_names = curated_names) /\
+  (forall k, In k program_names ->
+     exists b, get k program_cfg = Some (Some b) /\ forall v, get k program_cfg = Some v -> v = Some b) /\
+  (forall k, contains_key k program_cfg = true <-> In k program_names) /\
+  (forall (u : config) k, wf u ->
+     (In k program_names -> exists dflt, get k program_cfg = Some (Some dflt) /\
+        is_rule_enabled (fill_with_curated program_cfg u) k = match get k u with Some (Some b) => b | _ => dflt end) /\
+     (~ In k program_names ->
+        get k (fill_with_curated program_cfg u) = match get k u with Some (Some b) => Some (Some b) | _ => None end)) /\
+  (forall (ns' : list key) (g : ugroup), Permutation proper_names ns' ->
+     run_tstmt g (TMerge (adds ns' ++ [RSetAll (Some true)]))
+     = run_tstmt g (TMerge curated_sub_proper_noun_capitalization_linters)).
+Proof. exact new_curated_program. Qed.
+Check C11_new_curated_program :
+  (program_cfg = curated_cfg /\
+   map fst (g_linters new_curated_model) = map fst curated_struct_rules /\
+   map fst (g_patterns new_curated_model) = map fst curated_pattern_rules /\
+   program_names = curated_names) /\
+  (forall k, In k program_names ->
+     exists b, get k program_cfg = Some (Some b) /\ forall v, get k program_cfg = Some v -> v = Some b) /\
+  (forall k, contains_key k program_cfg = true <-> In k program_names) /\
+  (forall (u : config) k, wf u ->
+     (In k program_names -> exists dflt, get k program_cfg = Some (Some dflt) /\
+        is_rule_enabled (fill_with_curated program_cfg u) k = match get k u with Some (Some b) => b | _ => dflt end) /\
+     (~ In k program_names ->
+        get k (fill_with_curated program_cfg u) = match get k u with Some (Some b) => Some (Some b) | _ => None end)) /\
+  (forall (ns' : list key) (g : ugroup), Permutation proper_names ns' ->
+     run_tstmt g (TMerge (adds ns' ++ [RSetAll (Some true)]))
+     = run_tstmt g (TMerge curated_sub_proper_noun_capitalization_linters)).
+Print Assumptions C11_new_curated_program.
+
 (* a configuration survives a JSON round trip unchanged — ALL keys (any byte string, control characters,
    quotes and backslashes included), all three values *)
 Theorem C11_json_roundtrip : forall c : config, wf c -> parse_cfg (print_cfg c) = Some c.
@@ -451,3 +497,21 @@ Example C11_json_parser_nonvacuous :
                            34; 92; 117; 68; 56; 51; 68; 92; 117; 100; 101; 48; 48; 92; 47; 34; 58; 102; 97; 108; 115; 101; 125; 32])
   = Some [(ex_key [65], None); (ex_key [240; 159; 152; 128; 47], Some false)].
 Proof. vm_compute. reflexivity. Qed.
+(* C11_new_curated_program is about something: SpellCheck is registered (default on), SpelledNumbers defaults to
+   off, Intact ends up in BOTH maps, "Zed" is no rule and fill leaves it absent, an explicit user "off" wins; the
+   proper-noun group has more than one rule and its statements in reverse order build the same group *)
+Example C11_new_curated_program_nonvacuous :
+  In k_SpellCheck program_names /\ get k_SpellCheck program_cfg = Some (Some true) /\
+  get (ex_key [83; 112; 101; 108; 108; 101; 100; 78; 117; 109; 98; 101; 114; 115]) program_cfg = Some (Some false) /\
+  contains_key (ex_key [73; 110; 116; 97; 99; 116]) (g_linters new_curated_model) = true /\
+  contains_key (ex_key [73; 110; 116; 97; 99; 116]) (g_patterns new_curated_model) = true /\
+  get (ex_key [90; 101; 100]) (fill_with_curated program_cfg [(k_SpellCheck, Some false)]) = None /\
+  is_rule_enabled (fill_with_curated program_cfg [(k_SpellCheck, Some false)]) k_SpellCheck = false /\
+  2 <= length proper_names /\ rev proper_names <> proper_names /\
+  run_sub (adds (rev proper_names) ++ [RSetAll (Some true)]) = run_sub curated_sub_proper_noun_capitalization_linters.
+Proof.
+  split; [apply existsb_keqb; vm_compute; reflexivity|].
+  split; [vm_compute; reflexivity|]. split; [vm_compute; reflexivity|]. split; [vm_compute; reflexivity|].
+  split; [vm_compute; reflexivity|]. split; [vm_compute; reflexivity|]. split; [vm_compute; reflexivity|].
+  split; [apply Nat.leb_le; vm_compute; reflexivity|]. split; [vm_compute; discriminate|]. vm_compute; reflexivity.
+Qed.
